@@ -38,6 +38,9 @@ VALUES = {
     "Resistivity": ["0.1 kohm_cm", "100 ohm_cm", "1 ohm_m"],
 }
 BAD_VALUES = ["abc", "5", "1 xyz"]  # v = 100 + index
+EREVS = ["0.0 mV", "-70 mV"]        # channel density: v = 10 * k + index of the erev in the cell (9 = anything else)
+SETTERS = {"SpikeThresh": "set_spike_thresh", "InitMembPotential": "set_init_memb_potential",
+           "SpecificCapacitance": "set_specific_capacitance", "Resistivity": "set_resistivity"}
 
 
 def value_of(kind, v):
@@ -100,12 +103,16 @@ def dump(cell):
                "includes": [i.segment_groups for i in g.includes], "nlex": g.neuro_lex_id}
               for g in cell.morphology.segment_groups]
     bp = cell.biophysical_properties
-    mp, ip = bp.membrane_properties, bp.intracellular_properties
+    mp = bp.membrane_properties if bp is not None else None       # an empty container is not written,
+    ip = bp.intracellular_properties if bp is not None else None  # so it is None after a reload
+    m = lambda name: getattr(mp, name) if mp is not None else []  # noqa: E731
     props = {
-        "SpikeThresh": [[index_of("SpikeThresh", p.value), p.segment_groups] for p in mp.spike_threshes],
-        "InitMembPotential": [[index_of("InitMembPotential", p.value), p.segment_groups] for p in mp.init_memb_potentials],
-        "SpecificCapacitance": [[index_of("SpecificCapacitance", p.value), p.segment_groups] for p in mp.specific_capacitances],
-        "Resistivity": [[index_of("Resistivity", p.value), p.segment_groups] for p in ip.resistivities],
+        "SpikeThresh": [[index_of("SpikeThresh", p.value), p.segment_groups] for p in m("spike_threshes")],
+        "InitMembPotential": [[index_of("InitMembPotential", p.value), p.segment_groups] for p in m("init_memb_potentials")],
+        "SpecificCapacitance": [[index_of("SpecificCapacitance", p.value), p.segment_groups] for p in m("specific_capacitances")],
+        "Resistivity": [[index_of("Resistivity", p.value), p.segment_groups] for p in (ip.resistivities if ip is not None else [])],
+        "ChannelDens": [[10 * int(p.id[2:]) + (EREVS.index(p.erev) if p.erev in EREVS else 9), p.segment_groups]
+                        for p in m("channel_densities")],
     }
     return {"segs": segs, "groups": groups, "props": props}
 
@@ -117,26 +124,39 @@ def frac_of(op):
     return op["frac"] / 4.0
 
 
-def apply(cell, op):
+def drop(kw, op):
+    """optional arguments the op says to leave out (the generator only lists arguments whose value is the
+    documented default, so leaving them out must change nothing)"""
+    for name in op.get("omit", []):
+        kw.pop(name, None)
+    return kw
+
+
+def apply(cell, op, doc=None):
     k = op["op"]
     segs = cell.morphology.segments
     if k == "seg":
         x = len(segs)
-        cell.add_segment(prox=[x, 0, 0, 1] if op["prox"] else None, dist=[x + 1, 0, 0, 1],
-                         seg_id=op["seg_id"], name=op["name"],
-                         parent=segs[op["parent"]] if op["parent"] is not None else None,
-                         fraction_along=frac_of(op), group_id=op["group"], use_convention=op["conv"],
-                         seg_type=op["ty"], reorder_segment_groups=op["reorder"],
-                         optimise_segment_groups=op["optimise"])
+        kw = dict(seg_id=op["seg_id"], name=op["name"],
+                  parent=segs[op["parent"]] if op["parent"] is not None else None,
+                  fraction_along=frac_of(op), group_id=op["group"], use_convention=op["conv"],
+                  seg_type=op["ty"], reorder_segment_groups=op["reorder"],
+                  optimise_segment_groups=op["optimise"])
+        cell.add_segment([x, 0, 0, 1] if op["prox"] else None, [x + 1, 0, 0, 1], **drop(kw, op))
     elif k == "unbranched":
         x = len(segs)
         pts = [[x + j, 0, 0, 1] for j in range(op["npoints"])]
-        cell.add_unbranched_segments(pts, parent=segs[op["parent"]] if op["parent"] is not None else None,
-                                     fraction_along=frac_of(op), group_id=op["group"],
-                                     use_convention=op["conv"], seg_type=op["ty"],
-                                     reorder_segment_groups=op["reorder"], optimise_segment_groups=op["optimise"])
+        kw = dict(parent=segs[op["parent"]] if op["parent"] is not None else None,
+                  fraction_along=frac_of(op), group_id=op["group"],
+                  use_convention=op["conv"], seg_type=op["ty"],
+                  reorder_segment_groups=op["reorder"], optimise_segment_groups=op["optimise"])
+        cell.add_unbranched_segments(pts, **drop(kw, op))
     elif k == "group":
-        cell.add_segment_group(op["id"], neuro_lex_id=op["nlex"])
+        cell.add_segment_group(op["id"], **drop(dict(neuro_lex_id=op["nlex"]), op))
+    elif k == "chan":
+        kw = dict(erev=EREVS[op["erev"]], group_id=op["group"] if op["group"] is not None else "all",
+                  ion=op.get("ion", "non_specific"), ion_chan_def_file=op.get("file", ""))
+        cell.add_channel_density(doc, "cd%d" % op["k"], "pas", "1 mS_per_cm2", **drop(kw, op))
     elif k == "ugroup":
         cell.add_unbranched_segment_group(op["id"])
     elif k == "reorder":
@@ -145,16 +165,21 @@ def apply(cell, op):
         cell.optimise_segment_groups()
     elif k == "prop":
         val = value_of(op["kind"], op["v"])
-        if op["kind"] == "SpikeThresh":
-            cell.set_spike_thresh(val, group_id=op["group"])
-        elif op["kind"] == "InitMembPotential":
-            cell.set_init_memb_potential(val, group_id=op["group"])
-        elif op["kind"] == "SpecificCapacitance":
-            cell.set_specific_capacitance(val, group_id=op["group"])
-        elif op["kind"] == "Resistivity":
-            cell.set_resistivity(val, group_id=op["group"])
-        else:
+        if op["kind"] not in SETTERS:
             raise RuntimeError("bad prop kind")
+        if op.get("via") == "generic":
+            # the generic entry points; a group that is left out is the constructor default 'all'
+            kw = {"value": val}
+            if op["group"] is not None:
+                kw["segment_groups"] = op["group"]
+            if op["kind"] == "Resistivity":
+                cell.add_intracellular_property("Resistivity", **kw)
+            else:
+                cell.add_membrane_property(op["kind"], **kw)
+        elif op["group"] is None:
+            getattr(cell, SETTERS[op["kind"]])(val)
+        else:
+            getattr(cell, SETTERS[op["kind"]])(val, group_id=op["group"])
     else:
         raise RuntimeError("bad op")
 
@@ -166,7 +191,7 @@ def query(cell, gid):
         return {"err": classify(e)}
 
 
-def verdicts(cell):
+def verdicts(cell, doc=None):
     out = {}
     try:
         cell.validate(recursive=True)
@@ -178,8 +203,9 @@ def verdicts(cell):
         out["validate"] = False
         out["validate_msg"] = "raised " + classify(e)
     try:
-        doc = neuroml.NeuroMLDocument(id="d")
-        doc.cells.append(cell)
+        if doc is None:
+            doc = neuroml.NeuroMLDocument(id="d")
+            doc.cells.append(cell)
         fd, path = tempfile.mkstemp(suffix=".nml")
         os.close(fd)
         try:
@@ -198,18 +224,43 @@ def verdicts(cell):
     return out
 
 
+def reload(doc):
+    """write the document, read it back: building continues on a cell that came from a file"""
+    import neuroml.loaders
+    fd, path = tempfile.mkstemp(suffix=".nml")
+    os.close(fd)
+    try:
+        neuroml.writers.NeuroMLWriter.write(doc, path)
+        new = neuroml.loaders.read_neuroml2_file(path)
+    finally:
+        os.unlink(path)
+    return new, new.cells[0]
+
+
 def run_case(case):
     if case["init"] == "factory":
         cell = neuroml.utils.component_factory("Cell", id="c")
+    elif case["init"] == "custom":
+        # every container made by the user, none with the id the builder would have chosen
+        cell = neuroml.Cell(id="c", morphology=neuroml.Morphology(id="morph_x"),
+                            biophysical_properties=neuroml.BiophysicalProperties(
+                                id="bio_x", membrane_properties=neuroml.MembraneProperties(),
+                                intracellular_properties=neuroml.IntracellularProperties()))
     else:
         cell = neuroml.Cell(id="c")
         cell.setup_nml_cell(use_convention=False)
+    doc = neuroml.NeuroMLDocument(id="d")
+    doc.cells.append(cell)
     trace = []
     failed = False
     keys0 = set(vars(cell).keys()) | set("morphology." + k for k in vars(cell.morphology).keys())
     for op in case["ops"]:
         try:
-            apply(cell, op)
+            if op["op"] == "reload":
+                doc, cell = reload(doc)
+                keys0 = set(vars(cell).keys()) | set("morphology." + k for k in vars(cell.morphology).keys())
+            else:
+                apply(cell, op, doc)
             trace.append({"state": dump(cell)})
         except BaseException as e:  # noqa
             trace.append({"err": classify(e)})
@@ -224,7 +275,7 @@ def run_case(case):
             final["state"] = dump(cell)
             final["resolved"] = {g: query(cell, g) for g in ["all", "soma_group", "axon_group", "dendrite_group"]}
             final["resolved_user"] = {g.id: query(cell, g.id) for g in cell.morphology.segment_groups}
-            final.update(verdicts(cell))
+            final.update(verdicts(cell, doc))
             # ids in use are asked for again (last, so that a wrongly accepted one disturbs nothing above)
             ids = [s.id for s in cell.morphology.segments]
             probes = []
